@@ -3,6 +3,7 @@ import Model.MurmurPlaced
 import Model.Token
 import Model.Routing
 import Model.RoutingNames
+import Model.RoutingCache
 import Model.Marshal
 import Driver.C12
 import Driver.Util
@@ -188,6 +189,117 @@ def rkn (ws : List String) : Option String := do
     | [] => none
   | _ => none
 
+/-! ### op `rkc`: the routing-key info cache over a history of one session (Model/RoutingCache.lean) -/
+
+/-- <npk> <idx>… <sch> <m> <name:kind:pos>… <ncols> {| <name> <T…>}…  — what the server answers to PREPARE of the statement
+    (global table spec ks.<tbl>, partition-key bind indexes under protocol ≥ 4) and the schema rows of its table -/
+def pStmt (tbl : String) (ws : List String) : Option (RoutingCache.Stmt ValueSpec.CqlTy × List String) := do
+  match ws with
+  | npk :: r0 =>
+    let npk ← npk.toNat?
+    let (pkw, r1) ← takeN npk r0
+    let pk ← pkw.mapM (·.toNat?)
+    match r1 with
+    | sch :: m :: r2 =>
+      let m ← m.toNat?
+      let (roww, r3) ← takeN m r2
+      let srows ← roww.mapM pSchemaRow
+      let names ← (Routing.schemaPartitionKey (srows.filterMap id)).mapM id
+      match r3 with
+      | ncols :: r4 =>
+        let ncols ← ncols.toNat?
+        let (cols, r5) ← pCols ncols r4
+        some (⟨⟨cols, pk, "ks", tbl⟩, if sch != "0" then some names else none⟩, r5)
+      | [] => none
+    | _ => none
+  | [] => none
+
+def pStmts : Nat → Nat → List String → Option (List (RoutingCache.Stmt ValueSpec.CqlTy) × List String)
+  | 0, _, ws => some ([], ws)
+  | n+1, i, ws => do
+      let (st, r) ← pStmt ("t" ++ toString i) ws
+      let (more, r2) ← pStmts n (i+1) r
+      some (st :: more, r2)
+
+abbrev CStep := RoutingCache.Step ValueSpec.CqlTy Marshal.GoVal
+
+def pUse (ws : List String) : Option (Nat × List Marshal.GoVal) :=
+  match ws with
+  | k :: n :: r => do
+      let k ← k.toNat?
+      let n ← n.toNat?
+      let (vs, rest) ← pVals n r
+      if rest.isEmpty then some (k, vs) else none
+  | _ => none
+
+/-- one step of the history: its kind word (how the answer is printed) and the model's step -/
+def pCStep (ws : List String) : Option (String × CStep) :=
+  match ws with
+  | ["dn"] => some ("-", .down)
+  | ["up"] => some ("-", .up)
+  | ["max", n] => n.toNat?.map (fun n => ("-", .setMax n))
+  | ["b0"] => some ("b", .batchEmpty)
+  | ["qb", k] => k.toNat?.map (fun k => ("q", .useBinding k))
+  | ["bb", k] => k.toNat?.map (fun k => ("b", .useBinding k))
+  | "q" :: r => (pUse r).map (fun (k, vs) => ("q", .use k vs))
+  | "b" :: r => (pUse r).map (fun (k, vs) => ("b", .use k vs))
+  | "qe" :: h :: r => do
+      let key ← parseHex h
+      let (k, vs) ← pUse r
+      some ("qe", .useExplicit key k vs)
+  | "be" :: h :: r => do
+      let key ← parseHex h
+      let (k, vs) ← pUse r
+      some ("b", .useExplicit key k vs)
+  | "chg" :: k :: r => do
+      let k ← k.toNat?
+      let (st, rest) ← pStmt ("t" ++ toString k) r
+      if rest.isEmpty then some ("-", .change k st) else none
+  | _ => none
+
+def stepStmt : CStep → Option Nat
+  | .use k _ => some k
+  | .useExplicit _ k _ => some k
+  | .useBinding k => some k
+  | _ => none
+
+def showOut (kind : String) (tbl : String) : Option RoutingCache.Out → String
+  | none => "-"
+  | some .errNoConn => "err:noconn"
+  | some (.res r) =>
+    if kind == "qe" then showKey true "" "" r   -- an explicit key: the Query has not looked at the statement
+    else showKey (kind == "q") "ks" tbl r
+
+def showOrder (l : RoutingCache.LRU ValueSpec.CqlTy) : String :=
+  "[" ++ ",".intercalate (l.map (fun p => toString p.1)) ++ "]"
+
+def runC (p : Nat) : RoutingCache.State ValueSpec.CqlTy → List (String × CStep) → List String
+  | _, [] => []
+  | s, (kind, st) :: rest =>
+    let r := RoutingCache.step (encOf p) s st
+    let tbl := match stepStmt st with | some k => "t" ++ toString k | none => ""
+    (showOut kind tbl r.1 ++ " " ++ showOrder r.2.lru) :: runC p r.2 rest
+
+/-- rkc <proto> <max> <nst> <stmt>… / <step> / <step> …   one answer per step, joined by " ; ": the routing key (or
+    "-" for a step that asks for none) and the statements in the cache from the most recently used to the oldest.
+    `rkc` (spec-backed) answers only SAFE histories (RoutingCache.safe: theorem C09_cache_transparent_partial);
+    `rkcx`: any history (model vs code). -/
+def rkc (checkSafe : Bool) (ws : List String) : Option String := do
+  match ws with
+  | p :: mx :: nst :: r0 =>
+    let p ← p.toNat?
+    let mx ← mx.toNat?
+    let nst ← nst.toNat?
+    let (stmts, r1) ← pStmts nst 0 r0
+    match r1 with
+    | "/" :: r2 =>
+      let steps ← (splitSteps r2).mapM pCStep
+      let s0 : RoutingCache.State ValueSpec.CqlTy := ⟨stmts, true, mx, []⟩
+      if checkSafe && !RoutingCache.safe (encOf p) s0 (steps.map (·.2)) then some "unsafe-history"
+      else some (" ; ".intercalate (runC p s0 steps))
+    | _ => none
+  | _ => none
+
 /-- a canonical decimal int64 token string -/
 def canonInt (s : String) : Option Int :=
   match s.toInt? with
@@ -219,9 +331,16 @@ def canonical (bs : List UInt8) : Bool :=
   let cs := chars bs
   Token.printInt (Token.parseInt64 cs) == cs
 
+def showPart : Option Token.Partitioner → String
+  | some .murmur3 => "Murmur3Partitioner"
+  | some .ordered => "OrderedPartitioner"
+  | some .random => "RandomPartitioner"
+  | none => "err"
+
 /-- ops (answer is compared with the implementation's answer by the check driver):
   murmur <hex>            → signed decimal int64 token
   random <hex16 digest>   → decimal token
+  randomk <hex key>       → decimal token of the key (MD5 computed by the model: Model/MD5.lean)
   ordlt <hex> <hex>       → true|false
   parsem <string>         → int64 (murmur3 ParseString().String()) of a VALID token string; parsemx: any string
   rkey <hex> <hex> ...    → hex routing key of the encoded components
@@ -232,7 +351,9 @@ def canonical (bs : List UInt8) : Bool :=
                             several keyspaces and tables (see `rkn`); rknx: outcomes the theorems do not cover
   lessm <a> <b>           → Less of two VALID (canonical decimal int64) Murmur3 token strings; lessmx: any strings
   hlessm <k1> <k2>        → Less of the Murmur3 tokens of two keys; hlessr <d1> <k1> <d2> <k2>: Random
-  ringsort m|r|o …        → the token ring order -/
+  ringsort m|r|o …        → the token ring order
+  parser <string>         → RandomPartitioner ParseString().String() of a canonical decimal integer string; parserx: sign + digits
+  part <name>             → Name() of the partitioner newTokenRing selects for the class name, or err; partx: other names -/
 def stepU (ws : List String) : String :=
   match ws with
   | ["murmur", h] => match parseHex h with
@@ -240,6 +361,9 @@ def stepU (ws : List String) : String :=
       | none => "bad-op"
   | ["random", h, _] => match parseHex h with
       | some bs => if bs.length = 16 then toString (Token.randomToken bs) else "bad-op"
+      | none => "bad-op"
+  | ["randomk", h] => match parseHex h with
+      | some bs => toString (Token.randomTokenOfKey bs)
       | none => "bad-op"
   | ["ordlt", a, b] => match parseHex a, parseHex b with
       | some x, some y => toString (Token.lexLt x y)
@@ -251,9 +375,20 @@ def stepU (ws : List String) : String :=
       | some bs => toString (Token.parseInt64 (bs.map (fun b => Char.ofNat b.toNat)))
       | none => "bad-op"
   | ["parser", h] => match parseHex h with
-      | some bs => match Token.parseNat (bs.map (fun b => Char.ofNat b.toNat)) with
+      | some bs => match Token.parseBig (chars bs) with
+        | some n => if Token.printInt n == chars bs then toString n else "noncanonical"
+        | none => "undefined"
+      | none => "bad-op"
+  | ["parserx", h] => match parseHex h with
+      | some bs => match Token.parseBig (chars bs) with
         | some n => toString n
         | none => "undefined"
+      | none => "bad-op"
+  | ["part", h] => match parseHex h with
+      | some bs => showPart (Token.selectPartitioner (chars bs))
+      | none => "bad-op"
+  | ["partx", h] => match parseHex h with
+      | some bs => showPart (Token.selectPartitioner (chars bs))
       | none => "bad-op"
   | ["lessm", a, b] => match parseHex a, parseHex b with
       | some x, some y =>
@@ -269,6 +404,8 @@ def stepU (ws : List String) : String :=
       | _, _ => "bad-op"
   | "rkm" :: r => (rkm r).getD "bad-op"
   | "rkmx" :: r => (rkm r).getD "bad-op"
+  | "rkc" :: r => (rkc true r).getD "bad-op"
+  | "rkcx" :: r => (rkc false r).getD "bad-op"
   | "rkn" :: r => (rkn r).getD "bad-op"
   | "rknx" :: r => (rkn r).getD "bad-op"
   | "ringsort" :: k :: r => ringsort k r
@@ -276,7 +413,7 @@ def stepU (ws : List String) : String :=
       | some x, some y => toString (decide (Token.parseInt64 (x.map (fun b => Char.ofNat b.toNat)) < Token.parseInt64 (y.map (fun b => Char.ofNat b.toNat))))
       | _, _ => "bad-op"
   | ["lessr", a, b] => match parseHex a, parseHex b with
-      | some x, some y => match Token.parseNat (x.map (fun b => Char.ofNat b.toNat)), Token.parseNat (y.map (fun b => Char.ofNat b.toNat)) with
+      | some x, some y => match Token.parseBig (chars x), Token.parseBig (chars y) with
         | some m, some n => toString (decide (m < n))
         | _, _ => "undefined"
       | _, _ => "bad-op"
